@@ -325,6 +325,10 @@ def _post_cancel(engine, st, ctx, out):
     if dcalls:
         ev = dcalls[0][1]
         cl.append(("the result is the delegate's own answer to cancel()", "PC", r == ev.ret if ev.ret is not None else z3.BoolVal(False), ["C06"]))
+        ws = [(i, e) for i, e in enumerate(st.trace) if e.kind == "write" and e.meth == "delegate_future" and i > dcalls[0][0]]
+        cl.append(("a successfully cancelled in-flight attempt: the retry future lets go of the delegate's future (a done future must not keep the attempt, "
+                   "its callbacks and through them the executor alive)", "PC",
+                   z3.Implies(r, z3.Or([z3.And(e.recv == fid, Val.is_none(e.args[0])) for _i, e in ws] + [z3.BoolVal(False)])), ["C12"]))
         cl.append(("W1: after a failed cancel the submit thread is woken to act on stop_retry", "WK",
                    z3.Implies(z3.Not(r), z3.BoolVal(bool(sets) and max(sets) > dcalls[0][0])), ["C06", "C03"]))
     return cl
@@ -376,9 +380,9 @@ def _post_submit_retry(engine, st, ctx, out):
 UNITS += [
     Unit("RetryExecutor._submit_now", "retry.RetryExecutor._submit_now", ["C05", "C06", "C01", "C03", "C04", "C12", "C18", "C20"],
          _setup_submit_now, _post_submit_now, cfg=_cfg_submit_now, self_cls="RetryExecutor"),
-    Unit("RetryExecutor._cancel", "retry.RetryExecutor._cancel", ["C06", "C05", "C02", "C03", "C04", "C18", "C20"],
+    Unit("RetryExecutor._cancel", "retry.RetryExecutor._cancel", ["C06", "C05", "C02", "C03", "C04", "C12", "C18", "C20"],
          _setup_cancel, _post_cancel, cfg=_cfg_cancel, self_cls="RetryExecutor"),
-    Unit("RetryExecutor.submit_retry", "retry.RetryExecutor.submit_retry", ["C05", "C01", "C02", "C03", "C11", "C12"],
+    Unit("RetryExecutor.submit_retry", "retry.RetryExecutor.submit_retry", ["C05", "C01", "C02", "C03", "C11", "C12", "C20"],
          _setup_submit_retry, _post_submit_retry, cfg=_cfg_submit_retry, self_cls="RetryExecutor"),
 ]
 
@@ -499,9 +503,10 @@ def _post_loop(engine, st, ctx, out):
     return cl
 
 
-UNITS.append(Unit("_submit_loop", "retry._submit_loop", ["C05", "C03", "C06", "C11", "C12", "C18"], _setup_loop, _post_loop, cfg=_cfg_loop))
+UNITS.append(Unit("_submit_loop", "retry._submit_loop", ["C05", "C03", "C06", "C11", "C12", "C18", "C02", "C04"], _setup_loop, _post_loop, cfg=_cfg_loop))
 
-REPLAYS = [("C02", "RetryExecutor._cancel", "replay/c02_retry_cancel_orphan.py"), ("C18", "RetryExecutor._cancel", "replay/c02_retry_cancel_orphan.py"),
+REPLAYS = [("C12", "RetryExecutor._cancel # a successfully cancelled in-flight attempt", "replay/c12_retry_cancelled_future_pins_executor.py"),
+           ("C02", "RetryExecutor._cancel", "replay/c02_retry_cancel_orphan.py"), ("C18", "RetryExecutor._cancel", "replay/c02_retry_cancel_orphan.py"),
            ("C06", "RetryExecutor._cancel", "replay/c02_retry_cancel_orphan.py"),
            ("C20", "RetryExecutor._cancel", "replay/c20_retry_queue_cancel.py"), ("C12", "RetryExecutor._cancel", "replay/c20_retry_queue_cancel.py"),
            ("C18", "_submit_loop", "replay/c18_retry_stop_retry_race.py"), ("C03", "_submit_loop", "replay/c18_retry_stop_retry_race.py"),
